@@ -91,6 +91,7 @@ def ofInts (n d : Int) : Except ErrKind Frac := Frac.init (.fin n) (some (.fin d
 inductive Operand
   | frac (f : Frac)
   | num (n : Num)
+  | seq                  -- a list, tuple, str or any other iterable (`classify(other) == -1`)
 deriving DecidableEq, Repr
 
 /-- `if isinstance(other, NumberType): other = Fraction(other)`, followed by an attribute access
@@ -98,6 +99,7 @@ deriving DecidableEq, Repr
 def coerce : Operand → Except ErrKind Frac
   | .frac f => .ok f
   | .num .bad => .error .other
+  | .seq => .error .other
   | .num n => Frac.init n none
 
 def Frac.add (s : Frac) (o : Operand) : Except ErrKind Frac :=
@@ -118,6 +120,7 @@ def Operand.neg : Operand → Except ErrKind Operand
   | .num (.fin q) => .ok (.num (.fin (-q)))
   | .num (.inf n) => .ok (.num (.inf (!n)))
   | .num .bad => .error .type
+  | .seq => .error .type
 
 /-- `self + (-other)` -/
 def Frac.sub (s : Frac) (o : Operand) : Except ErrKind Frac :=
@@ -134,7 +137,15 @@ def Frac.rsub (s : Frac) (o : Operand) : Except ErrKind Frac :=
 /-- `reduce()` -/
 def Frac.reduce (f : Frac) : Frac := ⟨(f.numerator : Rat) / (f.denominator : Rat)⟩
 
+/-- `classify(other) == -1` -/
+def Operand.isSeq : Operand → Bool
+  | .seq => true
+  | _ => false
+
+/-- `self * other`.  For a sequence (`classify(other) == -1`) the code returns `other * self`: the
+sequence type does not know the Fraction, so `Fraction.__rmul__(other)` runs and raises `ValueError` -/
 def Frac.mul (s : Frac) (o : Operand) : Except ErrKind Frac :=
+  if o.isSeq then .error .value else
   match coerce o with
   | .error e => .error e
   | .ok o =>
@@ -142,8 +153,9 @@ def Frac.mul (s : Frac) (o : Operand) : Except ErrKind Frac :=
     | .error e => .error e
     | .ok x => .ok x.reduce
 
-/-- `other * self` = `self * other` (the operand is never a sequence here) -/
-def Frac.rmul (s : Frac) (o : Operand) : Except ErrKind Frac := s.mul o
+/-- `other * self`: `ValueError` for a sequence, else `self * other` -/
+def Frac.rmul (s : Frac) (o : Operand) : Except ErrKind Frac :=
+  if o.isSeq then .error .value else s.mul o
 
 /-- `inv()`: `1 / self.x` raises `ZeroDivisionError` on zero -/
 def Frac.inv (s : Frac) : Except ErrKind Frac :=
@@ -193,6 +205,7 @@ def Frac.oldCmp (s : Frac) (o : Operand) : Except ErrKind Int :=
 def Frac.eqImpl (s : Frac) (o : Operand) : Except ErrKind (Option Bool) :=
   match o with
   | .num .bad => .ok none
+  | .seq => .ok none
   | _ => match s.oldCmp o with
     | .error e => .error e
     | .ok c => .ok (some (c == 0))
@@ -201,6 +214,7 @@ def Frac.eqImpl (s : Frac) (o : Operand) : Except ErrKind (Option Bool) :=
 def Frac.ltImpl (s : Frac) (o : Operand) : Except ErrKind (Option Bool) :=
   match o with
   | .num .bad => .ok none
+  | .seq => .ok none
   | _ => match s.oldCmp o with
     | .error e => .error e
     | .ok c => .ok (some (c == -1))
@@ -811,5 +825,378 @@ def dbConvertFV (db : Db) (cq fromU toU : Sym) (fv : FV) : Except ErrKind FV :=
       match convertFV db c fromU toU fv with
       | .error e => .error e
       | .ok r => FV.init (some r.value) FracArg.default
+
+/-! ### `Fraction.__pow__` -/
+
+/-- the exponent of `fraction ** other` -/
+inductive PowExp
+  | int (k : Int)        -- a Python int
+  | float (k : Int)      -- a float with an integral value (`2.0`)
+  | inf (neg : Bool)     -- `float('inf')` / `float('-inf')`
+  | bad                  -- not a number: `other - other` raises `TypeError`
+  | frac                 -- a Fraction: `abs(other - other) < SMALL` is False (`Fraction(SMALL)` is 0), and
+                         -- `float(self) ** other` raises `TypeError`
+deriving DecidableEq, Repr
+
+/-- the finite branch: `Fraction(den ** -k, num ** -k)` for `k < 0`, else `Fraction(num ** k, den ** k)`.
+With a float exponent the two powers are floats with the same (integral) values. -/
+def Frac.powInt (s : Frac) (k : Int) : Except ErrKind Frac :=
+  if k < 0 then
+    Frac.init (.fin ((s.denominator ^ (-k).toNat : Int) : Rat)) (some (.fin ((s.numerator ^ (-k).toNat : Int) : Rat)))
+  else
+    Frac.init (.fin ((s.numerator ^ k.toNat : Int) : Rat)) (some (.fin ((s.denominator ^ k.toNat : Int) : Rat)))
+
+/-- `float(self) ** ±inf` (C `pow`): 1 for `|x| = 1`, 0 or `inf` otherwise; `Fraction(inf)` is a `ValueError` -/
+def Frac.powInf (s : Frac) (neg : Bool) : Except ErrKind Frac :=
+  if absR s.x = 1 then Frac.init (.fin 1) none
+  else if (decide (1 < absR s.x)) != neg then .error .value
+  else Frac.init (.fin 0) none
+
+/-- `self ** other` -/
+def Frac.pow (s : Frac) : PowExp → Except ErrKind Frac
+  | .int k => s.powInt k
+  | .float k => s.powInt k
+  | .inf neg => s.powInf neg
+  | .bad => .error .type
+  | .frac => .error .type
+
+/-! ### the in-place setters of `Fraction` and its sequence protocol -/
+
+/-- a Python value given to a setter (ints and floats take different branches there) -/
+inductive PyNum
+  | int (n : Int)
+  | float (q : Rat)      -- a finite float
+  | inf (neg : Bool)
+  | none                 -- `None`
+  | bad                  -- a str
+deriving DecidableEq, Repr
+
+/-- `fractions.Fraction(n, d)` of two ints (`ZeroDivisionError` for `d = 0`) -/
+def stdFraction (n d : Int) : Except ErrKind Frac :=
+  if d = 0 then .error .other else .ok ⟨(n : Rat) / (d : Rat)⟩
+
+/-- `fraction.numerator = v` (`set_numerator`) -/
+def Frac.setNum (f : Frac) : PyNum → Except ErrKind Frac
+  | .inf _ => .error .value
+  | .float q => f.setNumerator q
+  | .int n => stdFraction n f.denominator
+  | .none => .error .type          -- `fractions.Fraction(None, d)`
+  | .bad => .error .type
+
+/-- `fraction.denominator = v` (`set_denominator`); `fractions.Fraction(n, None)` is `n` -/
+def Frac.setDen (f : Frac) : PyNum → Except ErrKind Frac
+  | .inf _ => .error .value
+  | .float q =>
+    match Frac.init (.fin f.numerator) none with
+    | .error e => .error e
+    | .ok a =>
+      match Frac.init (.fin q) none with
+      | .error e => .error e
+      | .ok b => if b.x = 0 then .error .other else .ok ⟨a.x / b.x⟩
+  | .int n => stdFraction f.numerator n
+  | .none => .ok ⟨(f.numerator : Rat)⟩
+  | .bad => .error .type
+
+def PyNum.isNumber : PyNum → Bool
+  | .int _ => true | .float _ => true | .inf _ => true | _ => false
+
+/-- Python truth value of a number -/
+def PyNum.truthy : PyNum → Bool
+  | .int n => n != 0 | .float q => q != 0 | _ => true
+
+/-- `fraction[key] = v` (`__setitem__`); `key = none` is a key that is no number (`'a'`, `None`).
+The assertion, then the list assignment (`IndexError`/`TypeError`), then `fractions.Fraction(*x)`,
+which takes ints only. -/
+def Frac.setItem (f : Frac) (key : Option Int) (v : PyNum) : Except ErrKind Frac :=
+  if !(v.isNumber && (v.truthy || key != some 1)) then .error .assertion else
+  match key with
+  | none => .error .type
+  | some k =>
+    if k < -2 ∨ 1 < k then .error .index else
+    match v with
+    | .int n => if k = 0 ∨ k = -2 then stdFraction n f.denominator else stdFraction f.numerator n
+    | _ => .error .type
+
+/-- `len(fraction)` -/
+def Frac.len (_ : Frac) : Nat := 2
+
+/-- `fraction[key]` -/
+def Frac.getItem (f : Frac) (key : Option Int) : Except ErrKind Int :=
+  match key with
+  | none => .error .type
+  | some k =>
+    if k = 0 ∨ k = -2 then .ok f.numerator
+    else if k = 1 ∨ k = -1 then .ok f.denominator
+    else .error .index
+
+/-- `list(fraction)` / `tuple(fraction)` / unpacking -/
+def Frac.iter (f : Frac) : List Int := [f.numerator, f.denominator]
+
+/-! ### more of `FractionValue` -/
+
+/-- `GetLocalizedString()`: `FormatFloat` is `'%g' % x` in the C locale -/
+def FV.localizedString (v : FV) : List Char := v.str
+
+/-- `GetLocalizedFraction()`: the fraction part alone, empty when it is zero -/
+def FV.localizedFraction (v : FV) : List Char := if v.frac.toFloat = 0 then [] else v.frac.str
+
+/-- `CreateFromString(text, consider_locale)`: the number texts go through `FloatFromString`
+(`locale.atof`, C locale) or through `float`; on a text the regular expression matched both read the
+same decimal and both refuse a comma, so the flag does not enter the result -/
+def parseWith (_considerLocale : Bool) (text : List Char) : Except ErrKind FV := parse text
+
+/-- the argument of `CreateFromFloat` -/
+inductive CffArg
+  | none                 -- `None`: the method returns `None`
+  | bad                  -- neither int nor float: `TypeError`
+  | num (d : Rat)
+deriving DecidableEq, Repr
+
+/-- `FractionValue.CreateFromFloat(value)` for any argument -/
+def createFromFloatPy : CffArg → Except ErrKind (Option FV)
+  | .none => .ok none
+  | .bad => .error .type
+  | .num d =>
+    match createFromFloat d with
+    | .error e => .error e
+    | .ok v => .ok (some v)
+
+/-- `SetNumber(number)`; `none` stands for a non-number -/
+def FV.setNumber (v : FV) : Option Rat → Except ErrKind FV
+  | none => .error .type
+  | some n => .ok { v with number := n }
+
+/-! ### a pool of objects and sequences of operations on it
+
+The objects of a program: every `Fraction`, `FractionValue` and `FractionScalar` it has built, in
+the order of construction.  An operation either builds a new object (possibly reading others) or
+changes ONE object in place.  The model keeps the objects as independent values: nothing an
+operation does to object `i` can reach object `j ≠ i` (`Props/C18.lean`, section 8).  In the code
+that is so as long as no two objects share a `Fraction` instance; a `Fraction` argument handed to
+`FractionValue(...)`/`SetFraction` is kept by reference, so the correspondence always passes a
+fresh one. -/
+
+inductive Obj
+  | frac (f : Frac)
+  | fv (v : FV)
+  | fs (s : FS)
+deriving DecidableEq, Repr
+
+abbrev Pool := List Obj
+
+/-- the amount an object denotes (`float(obj)`, for a FractionScalar in its own unit) -/
+def Obj.value : Obj → Rat
+  | .frac f => f.toFloat
+  | .fv v => v.value
+  | .fs s => s.value.value
+
+/-- in-place operations; on a FractionValue the Fraction setters go through `fv.fraction`, on a
+FractionScalar everything goes through `fs.GetValue()` -/
+inductive Mut
+  | setNum (v : PyNum)                       -- `.numerator = v`
+  | setDen (v : PyNum)                       -- `.denominator = v`
+  | setItem (key : Option Int) (v : PyNum)   -- `[key] = v`
+  | reduce                                   -- `.reduce()`
+  | setNumber (n : Option Rat)               -- `SetNumber(n)` / `.number = n`
+  | setFraction (a : FracArg)                -- `SetFraction(a)` / `.fraction = a`
+deriving DecidableEq, Repr
+
+def Frac.mutate (f : Frac) : Mut → Except ErrKind Frac
+  | .setNum v => f.setNum v
+  | .setDen v => f.setDen v
+  | .setItem k v => f.setItem k v
+  | .reduce => .ok f.reduce
+  | .setNumber _ => .error .other            -- a Fraction has no such method
+  | .setFraction _ => .error .other
+
+def FV.mutate (v : FV) (m : Mut) : Except ErrKind FV :=
+  match m with
+  | .setNumber n => v.setNumber n
+  | .setFraction a =>
+    match setFraction a with
+    | .error e => .error e
+    | .ok f => .ok { v with frac := f }
+  | m =>
+    match v.frac.mutate m with
+    | .error e => .error e
+    | .ok f => .ok { v with frac := f }
+
+def Obj.mutate (o : Obj) (m : Mut) : Except ErrKind Obj :=
+  match o with
+  | .frac f =>
+    match f.mutate m with
+    | .error e => .error e
+    | .ok f' => .ok (.frac f')
+  | .fv v =>
+    match v.mutate m with
+    | .error e => .error e
+    | .ok v' => .ok (.fv v')
+  | .fs s =>
+    match s.value.mutate m with
+    | .error e => .error e
+    | .ok v' => .ok (.fs { s with value := v' })
+
+inductive UnOp | neg | abs | inv | copy
+deriving DecidableEq, Repr
+
+inductive BinOp | add | radd | sub | rsub | mul | rmul | div | rdiv | mod
+deriving DecidableEq, Repr
+
+def Frac.un (s : Frac) : UnOp → Except ErrKind Frac
+  | .neg => s.neg | .abs => s.abs | .inv => s.inv | .copy => s.copy
+
+def Frac.bin (s : Frac) (f : BinOp) (o : Operand) : Except ErrKind Frac :=
+  match f with
+  | .add => s.add o | .radd => s.radd o | .sub => s.sub o | .rsub => s.rsub o | .mul => s.mul o
+  | .rmul => s.rmul o | .div => s.div o | .rdiv => s.rdiv o | .mod => s.mod o
+
+/-- the other operand of an operator: a pool member (a Fraction) or a literal -/
+inductive Arg
+  | ref (k : Nat)
+  | lit (o : Operand)
+deriving DecidableEq, Repr
+
+/-- the `value` argument of `FractionScalar(...)`: a plain number or a (fresh) FractionValue -/
+inductive FsVal
+  | num (q : Rat)
+  | fv (v : FV)
+deriving DecidableEq, Repr
+
+/-- operations that build a new object -/
+inductive Ctor
+  | fracNew (a : Num) (b : Option Num)                     -- `Fraction(a)`, `Fraction(a, b)`
+  | fracUn (f : UnOp) (k : Nat)                            -- `-p[k]`, `abs(p[k])`, `p[k].inv()`, `p[k].copy()`
+  | fracBin (f : BinOp) (k : Nat) (o : Arg)                -- `p[k] + o`, `o + p[k]`, …
+  | fracPow (k : Nat) (e : PowExp)                         -- `p[k] ** e`
+  | fvNew (number : Option Rat) (fr : FracArg)             -- `FractionValue(...)`, omitted arguments are the defaults
+  | fvFromFloat (d : CffArg)                               -- `FractionValue.CreateFromFloat(d)`
+  | fvFromString (text : List Char) (considerLocale : Bool)
+  | fvCopy (k : Nat)                                       -- `copy.copy(p[k])`
+  | fsNew (cat unit : Sym) (v : FsVal)                     -- `FractionScalar(cat, value=v, unit=unit)`
+  | fsGetValue (k : Nat) (unit : Sym)                      -- `p[k].GetValue(unit)`: a new FractionValue
+  | fvConvert (k : Nat) (qa : QArg) (fromU toU : Sym)      -- `FractionScalar.ConvertFractionValue(p[k], qa, fromU, toU)`
+deriving DecidableEq, Repr
+
+def Pool.frac? (p : Pool) (k : Nat) : Option Frac :=
+  match p[k]? with
+  | some (.frac f) => some f
+  | _ => none
+
+def Pool.fv? (p : Pool) (k : Nat) : Option FV :=
+  match p[k]? with
+  | some (.fv v) => some v
+  | _ => none
+
+def Pool.fs? (p : Pool) (k : Nat) : Option FS :=
+  match p[k]? with
+  | some (.fs s) => some s
+  | _ => none
+
+def Arg.operand (p : Pool) : Arg → Option Operand
+  | .lit o => some o
+  | .ref k => (p.frac? k).map .frac
+
+def okFrac : Except ErrKind Frac → Except ErrKind (Option Obj)
+  | .ok f => .ok (some (.frac f))
+  | .error e => .error e
+
+def okFV : Except ErrKind FV → Except ErrKind (Option Obj)
+  | .ok v => .ok (some (.fv v))
+  | .error e => .error e
+
+/-- what a constructing operation builds (`none`: `CreateFromFloat(None)` builds nothing).  A reference to
+a pool member of the wrong kind is not a call the correspondence makes (`runtime`). -/
+def Ctor.eval (db : Db) (p : Pool) : Ctor → Except ErrKind (Option Obj)
+  | .fracNew a b => okFrac (Frac.init a b)
+  | .fracUn f k =>
+    match p.frac? k with
+    | none => .error .runtime
+    | some s => okFrac (s.un f)
+  | .fracBin f k o =>
+    match p.frac? k, o.operand p with
+    | some s, some o => okFrac (s.bin f o)
+    | _, _ => .error .runtime
+  | .fracPow k e =>
+    match p.frac? k with
+    | none => .error .runtime
+    | some s => okFrac (s.pow e)
+  | .fvNew n fr => okFV (FV.init n fr)
+  | .fvFromFloat d =>
+    match createFromFloatPy d with
+    | .error e => .error e
+    | .ok none => .ok none
+    | .ok (some v) => .ok (some (.fv v))
+  | .fvFromString t cl => okFV (parseWith cl t)
+  | .fvCopy k =>
+    match p.fv? k with
+    | none => .error .runtime
+    | some v => okFV v.copy
+  | .fsNew cat unit v =>
+    match (match v with
+           | .num q => FV.init (some q) FracArg.default
+           | .fv w => .ok w) with
+    | .error e => .error e
+    | .ok w =>
+      match FS.init db cat unit w with
+      | .error e => .error e
+      | .ok s => .ok (some (.fs s))
+  | .fsGetValue k unit =>
+    match p.fs? k with
+    | none => .error .runtime
+    | some s => okFV (s.getValue db (some unit))
+  | .fvConvert k qa fromU toU =>
+    match p.fv? k with
+    | none => .error .runtime
+    | some v => okFV (convertFractionValue db qa fromU toU v)
+
+/-- one operation of a program -/
+inductive PoolOp
+  | new (c : Ctor)
+  | upd (i : Nat) (m : Mut)
+deriving DecidableEq, Repr
+
+/-- the object an operation changes -/
+def PoolOp.target : PoolOp → Option Nat
+  | .new _ => none
+  | .upd i _ => some i
+
+/-- one step: the new pool and what the statement did (an exception leaves everything as it was) -/
+def poolStep (db : Db) (p : Pool) : PoolOp → Pool × Except ErrKind Unit
+  | .new c =>
+    match c.eval db p with
+    | .ok (some o) => (p ++ [o], .ok ())
+    | .ok none => (p, .ok ())
+    | .error e => (p, .error e)
+  | .upd i m =>
+    match p[i]? with
+    | none => (p, .error .runtime)
+    | some o =>
+      match o.mutate m with
+      | .ok o' => (p.set i o', .ok ())
+      | .error e => (p, .error e)
+
+/-- a whole program -/
+def poolRun (db : Db) : Pool → List PoolOp → Pool
+  | p, [] => p
+  | p, op :: ops => poolRun db (poolStep db p op).1 ops
+
+/-- the pools after every step, with the outcome of the step -/
+def poolTrace (db : Db) : Pool → List PoolOp → List (Except ErrKind Unit × Pool)
+  | _, [] => []
+  | p, op :: ops => ((poolStep db p op).2, (poolStep db p op).1) :: poolTrace db (poolStep db p op).1 ops
+
+/-- the in-place operations applied to one object alone (a failing one changes nothing) -/
+def Obj.mutateAll (o : Obj) : List Mut → Obj
+  | [] => o
+  | m :: ms =>
+    match o.mutate m with
+    | .ok o' => o'.mutateAll ms
+    | .error _ => o.mutateAll ms
+
+/-- the in-place operations of a program that are aimed at object `j` -/
+def mutsOf (j : Nat) : List PoolOp → List Mut
+  | [] => []
+  | .upd i m :: ops => if i = j then m :: mutsOf j ops else mutsOf j ops
+  | .new _ :: ops => mutsOf j ops
 
 end Barril.Frac
